@@ -1,6 +1,6 @@
 /* @harness c02.dstream_step
  * @props C02 C10
- * @tier quick
+ * @tier thorough
  * @functions ZSTD_decompressStream ZSTD_decompressContinueStream ZSTD_nextSrcSizeToDecompressWithInputSize ZSTD_nextSrcSizeToDecompress ZSTD_nextInputType ZSTD_isSkipFrame ZSTD_limitCopy ZSTD_checkOutBuffer
  * @bounds ONE call of the streaming decoder from an ARBITRARY mid-frame state satisfying the stream invariant I_d (inductive step => any call history, any segmentation): stream stage read / load / flush (one instance each); frame stage block header / block (raw, RLE, compressed; last or not) / checksum / skippable content; any partially loaded input, any partially flushed output; block size limit 4..8 (production: 1 KiB..128 KiB; the stream layer is generic in it), window 1..2 block sizes, content size unknown or any value <= 40; internal buffers of any size allowed by the sizing rule; per call 0..(block + 4) new input bytes, output room 0..(block + 8), at most 3 (stable output) / 2 (buffered output) invocations of the frame decoder inside the call (further iterations of the same loop start again from states satisfying I_d); stable output buffer (quick instances) or buffered output (thorough instances: 16-20 min each)
  * @assume ZSTD_decompressContinue is a CONTRACT stub (definition line renamed in a scratch copy): it must be fed exactly the size it asked for, from readable memory, with a writable destination of the announced capacity; it then fails or produces at most min(block size limit, content still missing) bytes and moves the frame to ANY next state allowed by I_d (including end of frame); raw blocks may be consumed piecewise as the real decoder allows
@@ -15,8 +15,8 @@
  * @cbmc --unwind 10
  * @timeout 1800
  * @memgb 14
- * @instance stable_read -DOUT_STABLE=1 -DSS0=zdss_read -DSS_READ=1
- * @instance stable_load -DOUT_STABLE=1 -DSS0=zdss_load -DSS_LOAD=1
+ * @instance stable_read tier=thorough -DOUT_STABLE=1 -DSS0=zdss_read -DSS_READ=1
+ * @instance stable_load tier=thorough -DOUT_STABLE=1 -DSS0=zdss_load -DSS_LOAD=1
  * @instance buf_read tier=thorough timeout=2400 -DOUT_STABLE=0 -DSS0=zdss_read -DSS_READ=1 -DMAXCALLS=2
  * @instance buf_load tier=thorough timeout=2400 -DOUT_STABLE=0 -DSS0=zdss_load -DSS_LOAD=1 -DMAXCALLS=2
  * @instance buf_flush tier=thorough timeout=2400 -DOUT_STABLE=0 -DSS0=zdss_flush -DSS_FLUSH=1 -DMAXCALLS=2
